@@ -673,3 +673,68 @@ Proof. unfold required_metadata. rewrite filter_In, mem_In. tauto. Qed.
 
 Lemma run_history_last h c : last (run_history (h ++ [c])) [] = md_write (fst c) (snd c).
 Proof. unfold run_history. rewrite map_app. cbn [map]. apply last_last. Qed.
+
+(* ------------------------------------------------------------ streaming kind *)
+Lemma decl_eqb_eq a b : decl_eqb a b = true <-> a = b.
+Proof. destruct a, b; cbn; split; intro H; try reflexivity; try discriminate. Qed.
+
+Lemma has_decl_In d ds : has_decl d ds = true <-> In d ds.
+Proof.
+  unfold has_decl. rewrite existsb_exists. split.
+  - intros (x & Hx & E). apply decl_eqb_eq in E. now subst.
+  - intro H. exists d. split; [assumption|now apply decl_eqb_eq].
+Qed.
+
+Lemma kind_fold ds : forall a b, NoDup ds ->
+  (a = true -> ~ In DStreamingPayload ds) -> (b = true -> ~ In DStreamingResult ds) ->
+  fold_left decl_step ds (designed_kind a b) =
+  designed_kind (a || has_decl DStreamingPayload ds) (b || has_decl DStreamingResult ds).
+Proof.
+  induction ds as [|d ds IH]; intros a b Hnd Ha Hb.
+  - cbn. now rewrite !orb_false_r.
+  - inversion Hnd as [|? ? Hnotin Hnd']; subst. cbn [fold_left].
+    assert (forall x, ~ In x (d :: ds) -> x <> d /\ ~ In x ds) as Hsplit.
+    { intros x Hx. split; [intro E; apply Hx; now left|intro E; apply Hx; now right]. }
+    destruct d.
+    + (* Payload *)
+      cbn [decl_step]. rewrite IH; [|assumption| |].
+      * unfold has_decl. cbn [existsb decl_eqb orb]. reflexivity.
+      * intro E. now apply Hsplit, Ha.
+      * intro E. now apply Hsplit, Hb.
+    + (* StreamingPayload *)
+      assert (a = false) as -> by (destruct a; [exfalso; apply (Ha eq_refl); now left|reflexivity]).
+      replace (decl_step (designed_kind false b) DStreamingPayload) with (designed_kind true b) by (destruct b; reflexivity).
+      rewrite IH; [|assumption| |].
+      * unfold has_decl. cbn [existsb decl_eqb orb]. reflexivity.
+      * intros _. exact Hnotin.
+      * intro E. now apply Hsplit, Hb.
+    + (* Result *)
+      cbn [decl_step]. rewrite IH; [|assumption| |].
+      * unfold has_decl. cbn [existsb decl_eqb orb]. reflexivity.
+      * intro E. now apply Hsplit, Ha.
+      * intro E. now apply Hsplit, Hb.
+    + (* StreamingResult *)
+      assert (b = false) as -> by (destruct b; [exfalso; apply (Hb eq_refl); now left|reflexivity]).
+      replace (decl_step (designed_kind a false) DStreamingResult) with (designed_kind a true) by (destruct a; reflexivity).
+      rewrite IH; [|assumption| |].
+      * unfold has_decl. cbn [existsb decl_eqb orb]. reflexivity.
+      * intro E. now apply Hsplit, Ha.
+      * intros _. exact Hnotin.
+Qed.
+
+Lemma kind_of_decls_designed ds : NoDup ds ->
+  kind_of_decls ds = designed_kind (has_decl DStreamingPayload ds) (has_decl DStreamingResult ds).
+Proof.
+  intro H. unfold kind_of_decls. change Unary with (designed_kind false false).
+  rewrite (kind_fold ds false false H); [reflexivity| |]; discriminate.
+Qed.
+
+Lemma request_metadata_names_In attrs explicit creds sp a :
+  In a (request_metadata_names attrs explicit creds sp) <->
+  if sp then In a attrs else In a explicit \/ In a creds.
+Proof.
+  unfold request_metadata_names. destruct sp; [reflexivity|].
+  rewrite in_app_iff, filter_In, negb_true_iff. split.
+  - intros [H|[H _]]; tauto.
+  - intros [H|H]; [now left|]. destruct (mem a explicit) eqn:E; [left; now apply mem_In|right; now split].
+Qed.
